@@ -122,8 +122,10 @@ func (h *c15Run) stepNewUser(r *RNG, p *c15Pool, step int) {
 	if r.Chance(90) {
 		fs = append(fs, c15Field{110, h.access(r)})
 	}
+	h.beginReq(fs)
+	fs = h.shape(fs)
 	before := h.ts.Acct.Get(string(l)) != nil
-	res, _, pn := h.ts.Call(h.cc, mkTran(hotline.TranNewUser, uint32(step), c15Fields(fs)...))
+	res, _, pn := h.call(mkTran(hotline.TranNewUser, uint32(step), c15Fields(fs)...))
 	o := classify(res, pn)
 	h.addPw(l, pw)
 	h.obs("N "+c15Tok(fs), fmt.Sprintf("step %d new-user %s", step, hx(l)), o)
@@ -155,8 +157,10 @@ func (h *c15Run) stepSetUser(r *RNG, p *c15Pool, step int) {
 	if present {
 		fs = append(fs, c15Field{106, data})
 	}
+	h.beginReq(fs)
+	fs = h.shape(fs)
 	prev := h.ts.Acct.Get(string(l))
-	res, _, pn := h.ts.Call(h.cc, mkTran(hotline.TranSetUser, uint32(step), c15Fields(fs)...))
+	res, _, pn := h.call(mkTran(hotline.TranSetUser, uint32(step), c15Fields(fs)...))
 	o := classify(res, pn)
 	if kind == "value" {
 		h.addPw(l, data)
@@ -217,7 +221,9 @@ func (h *c15Run) pwMonitor(l []byte, prevHash, kind string, data []byte, op stri
 func (h *c15Run) stepDeleteUser(r *RNG, p *c15Pool, step int) {
 	l := h.existing(r, p)
 	fs := []c15Field{{105, obf(l)}}
-	res, _, pn := h.ts.Call(h.cc, mkTran(hotline.TranDeleteUser, uint32(step), c15Fields(fs)...))
+	h.beginReq(fs)
+	fs = h.shape(fs)
+	res, _, pn := h.call(mkTran(hotline.TranDeleteUser, uint32(step), c15Fields(fs)...))
 	o := classify(res, pn)
 	h.addLogin(l)
 	h.obs("D "+c15Tok(fs), fmt.Sprintf("step %d delete-user %s", step, hx(l)), o)
@@ -252,7 +258,7 @@ func (h *c15Run) goneMonitor(l []byte, op string) {
 func (h *c15Run) stepGetUser(r *RNG, p *c15Pool, step int) {
 	l := h.existing(r, p)
 	fs := []c15Field{{105, l}} // get-user reads the login field as sent (not de-obfuscated)
-	res, _, pn := h.ts.Call(h.cc, mkTran(hotline.TranGetUser, uint32(step), c15Fields(fs)...))
+	res, _, pn := h.call(mkTran(hotline.TranGetUser, uint32(step), c15Fields(fs)...))
 	o := classify(res, pn)
 	if o == "done" {
 		t := res[0]
@@ -434,6 +440,12 @@ func (h *c15Run) stepBatchIndependent(r *RNG, p *c15Pool, step int) bool {
 	}
 	var fields []hotline.Field
 	tok := fmt.Sprintf("U %d", len(recs))
+	h.beginReq(recs...)
+	for i := range recs {
+		if len(recs[i]) > 1 { // a one-field sub-record is a delete: it stays one field
+			recs[i] = h.shape(recs[i])
+		}
+	}
 	for i, fs := range recs {
 		fields = append(fields, hotline.NewField(hotline.FieldData, c15SubRecord(fs)))
 		tok += " " + c15Tok(fs)
@@ -452,7 +464,7 @@ func (h *c15Run) stepBatchIndependent(r *RNG, p *c15Pool, step int) bool {
 		}
 		h.c.Dist("update-record/" + w.kind)
 	}
-	res, _, pn := h.ts.Call(h.cc, mkTran(hotline.TranUpdateUser, uint32(step), fields...))
+	res, _, pn := h.call(mkTran(hotline.TranUpdateUser, uint32(step), fields...))
 	o := classify(res, pn)
 	h.obs(tok, fmt.Sprintf("step %d update-user independent batch", step), o)
 	h.c.Dist("update-user-independent/" + o)
@@ -521,8 +533,19 @@ func (h *c15Run) stepUpdateUser(r *RNG, p *c15Pool, step int) {
 	var fields []hotline.Field
 	tok := fmt.Sprintf("U %d", n)
 	kinds := ""
+	var gen []c15Rec
+	var all [][]c15Field
 	for i := 0; i < n; i++ {
-		rec := h.genRec(r, p)
+		g := h.genRec(r, p)
+		gen = append(gen, g)
+		all = append(all, g.fs)
+	}
+	h.beginReq(all...)
+	for i := 0; i < n; i++ {
+		rec := gen[i]
+		if len(rec.fs) > 1 { // a one-field sub-record is a delete: it stays one field
+			rec.fs = h.shape(rec.fs)
+		}
 		recs = append(recs, rec)
 		fields = append(fields, hotline.NewField(hotline.FieldData, c15SubRecord(rec.fs)))
 		tok += " " + c15Tok(rec.fs)
@@ -552,7 +575,7 @@ func (h *c15Run) stepUpdateUser(r *RNG, p *c15Pool, step int) {
 			}
 		}
 	}
-	res, _, pn := h.ts.Call(h.cc, mkTran(hotline.TranUpdateUser, uint32(step), fields...))
+	res, _, pn := h.call(mkTran(hotline.TranUpdateUser, uint32(step), fields...))
 	o := classify(res, pn)
 	h.obs(tok, fmt.Sprintf("step %d update-user %s", step, kinds), o)
 	h.c.Dist("update-user/" + fmt.Sprint(n) + "/" + o)
@@ -615,7 +638,7 @@ func (h *c15Run) stepRestart(step int) {
 
 func init() {
 	props["C15"] = func(x *Ctx) {
-		x.rule = "histories of 20-40 protocol operations (new-user 350, set-user 353, batched update-user 349 with 1-4 sub-records mixing create/modify/rename/delete, delete-user 351, get-user 352, list-users 348, restart = swapping in a manager freshly loaded from the directory) over a pool of 4-7 logins, 4 names, 3-4 passwords drawn from arbitrary bytes that are legal file names (non-UTF-8, YAML look-alikes such as 123/true/~/null/<<, spaces, leading dashes, glob characters, LF/CR inside, lengths around NAME_MAX); after EVERY step: Authenticate for every login ever used with every password ever used with it, list-users reply, parsed directory, second manager. non-trivial = at least 3 state-changing requests succeeded; distinct = distinct token string of the history (oracle input)"
+		x.rule = "histories of 20-40 protocol operations (new-user 350, set-user 353, batched update-user 349 with 1-4 sub-records mixing create/modify/rename/delete, delete-user 351, get-user 352, list-users 348, restart = swapping in a manager freshly loaded from the directory) over a pool of 4-7 logins, 4 names, 3-4 passwords drawn from arbitrary bytes that are legal file names (non-UTF-8, YAML look-alikes such as 123/true/~/null/<<, spaces, leading dashes, glob characters, LF/CR inside, lengths around NAME_MAX); after EVERY step: Authenticate for every login ever used with every password ever used with it, list-users reply, parsed directory, second manager. non-trivial = at least 3 state-changing requests succeeded; distinct = distinct token string of the history (oracle input). wave d: wire-large-fields = the same histories with every request serialised and parsed back by the real Transaction.Write, names / privilege fields / filler fields of 4000..60000 bytes in every position and order (request < 64 KiB); failing-persist = histories in which 45 % of the requests are served while Users/.account.tmp cannot be written (non-empty directory at that name); binary-restart = the real server binary started with -init, accounts (incl. the default ones) deleted / renamed / created over TCP, process stopped and started again with or without -init"
 		x.assume = []string{
 			"bcrypt: verify (hash p) q <-> p = q for the generated passwords (as sent): at most 20 bytes, either free of 0x00 or one leading 0x00 followed by 1..4 non-zero bytes (bcrypt repeats the NUL-terminated key cyclically: hash(\"\") also accepts the single byte 0x00; the oracle's environment compares bcrypt keys)",
 			"gopkg.in/yaml.v3 round-trips every string except those containing LF whose first character is LF, TAB, U+2028 or U+2029 (excluded from the history generators by this rule; exercised by family yaml-unsafe-strings, known finding yaml-block-scalar-leading-whitespace)",
@@ -626,6 +649,18 @@ func init() {
 		x.Add(&Family{Name: "rename-chains", Quick: 60, Thor: 500, Run: func(c *Case) { c15History(c, 1) }})
 		x.Add(&Family{Name: "long-logins", Quick: 32, Thor: 200, Run: c15LongLogins})
 		x.Add(&Family{Name: "yaml-unsafe-strings", Quick: 20, Thor: 100, Run: c15YamlUnsafe})
+		x.Add(&Family{Name: "wire-large-fields", Quick: 60, Thor: 600, Run: c15WireHistory})
+		x.Add(&Family{Name: "failing-persist", Quick: 60, Thor: 600, Run: c15FailingPersist})
+		x.Add(&Family{Name: "binary-restart", Quick: 8, Thor: 48, MaxPar: 4, Run: c15BinaryRestart})
+		if only := os.Getenv("VERIF_FAMILY"); only != "" { // development aid: run one family
+			var keep []*Family
+			for _, f := range x.families {
+				if f.Name == only {
+					keep = append(keep, f)
+				}
+			}
+			x.families = keep
+		}
 	}
 }
 
@@ -718,7 +753,7 @@ func c15LongLogins(c *Case) {
 	h.check(0)
 	step := 1
 	do := func(fs []c15Field, ty hotline.TranType, tok string, label string) string {
-		res, _, pn := h.ts.Call(h.cc, mkTran(ty, uint32(step), c15Fields(fs)...))
+		res, _, pn := h.call(mkTran(ty, uint32(step), c15Fields(fs)...))
 		o := classify(res, pn)
 		h.obs(tok+" "+c15Tok(fs), label, o)
 		h.check(step)
@@ -731,7 +766,7 @@ func c15LongLogins(c *Case) {
 	do([]c15Field{{105, obf(short)}, {102, []byte("n1")}, {106, []byte{1, 2}}, {110, make([]byte, 8)}}, hotline.TranNewUser, "N", "create short")
 	// rename short -> long through update-user
 	rec := []c15Field{{101, obf(short)}, {105, obf(long)}, {102, []byte("n2")}, {106, []byte{0}}}
-	res, _, pn := h.ts.Call(h.cc, mkTran(hotline.TranUpdateUser, uint32(step), hotline.NewField(hotline.FieldData, c15SubRecord(rec))))
+	res, _, pn := h.call(mkTran(hotline.TranUpdateUser, uint32(step), hotline.NewField(hotline.FieldData, c15SubRecord(rec))))
 	o := classify(res, pn)
 	h.obs("U 1 "+c15Tok(rec), "rename short->long", o)
 	c.Dist(fmt.Sprintf("rename-to-%d/%s", ln, o))
